@@ -7,6 +7,7 @@ import (
 	"sort"
 	"strings"
 
+	"github.com/quasilyte/go-ruleguard/ruleguard"
 	"verifharness/hx"
 )
 
@@ -153,6 +154,46 @@ func r(m dsl.Matcher) {
 		}
 		if i == 0 {
 			res.Sample(map[string]interface{}{"src": src, "reports": have})
+		}
+	}
+	// a run aborted inside a dead branch (the user's Report callback panics there) must not leave the flag set
+	// for the next file analysed with the same RunnerState
+	for i := 0; i+1 < len(cases) && i < 12; i++ {
+		a, b := cases[i], cases[i+1]
+		first, _, _, _ := hx.Run(e, a.t, hx.RunOpts{})
+		deadAt := 0
+		for k, r := range first {
+			if strings.HasPrefix(r.Message, "dead") {
+				deadAt = k + 1
+				break
+			}
+		}
+		if deadAt == 0 {
+			continue
+		}
+		st := ruleguard.NewRunnerState(e)
+		_, pk, _, _ := hx.Run(e, a.t, hx.RunOpts{State: st, OnReport: func(n int) {
+			if n == deadAt {
+				panic("verif-callback abort inside a dead branch")
+			}
+		}})
+		if pk == "" {
+			res.Errorf("c16: the aborting callback did not abort the run")
+			continue
+		}
+		fresh, _, _, _ := hx.Run(e, b.t, hx.RunOpts{})
+		after, pk2, _, _ := hx.Run(e, b.t, hx.RunOpts{State: st})
+		key := func(rs []hx.Report) string {
+			var sb strings.Builder
+			for _, r := range rs {
+				sb.WriteString(r.Message + ";")
+			}
+			return sb.String()
+		}
+		res.Count("after-abort-in-dead-branch", a.name+"->"+b.name, true)
+		if pk2 != "" || key(fresh) != key(after) {
+			res.Violate(hx.Violation{Signature: "deadcode:flag-survives-aborted-run", What: "after a run aborted inside a dead branch the next file's Deadcode() verdicts differ",
+				Input: map[string]interface{}{"aborted_file": string(a.t.Src), "abort_at_report": deadAt, "next_file": string(b.t.Src)}, Impl: pk2 + key(after), Spec: key(fresh)})
 		}
 	}
 	return walkSuite(c, "walk-dead", cases)
